@@ -38,6 +38,7 @@ typedef a_avl troot;
 #endif
 #define VF_HAVE_INIT
 #include "vf_common.h"
+#include <limits.h>
 
 #define MAXN 4200
 #define NODE_MAGIC 0x7E57A11Du
@@ -50,15 +51,27 @@ typedef struct hnode
     uint32_t magic;
 } hnode;
 
+/* The documented comparator contract is only the SIGN of the result (avl.h/rbt.h: ==0 equivalent, <0 before, >0 after), so
+   the comparators return, per case, -1/0/+1, the key difference, or the extreme values of int (seeded change C01-F: a search
+   that dispatches on the values -1 and +1). */
+static int cmp_style;
+static int cmp_shape(int a, int b)
+{
+    switch (cmp_style)
+    {
+    case 1: return a - b; /* keys are small: no overflow */
+    case 2: return a < b ? INT_MIN : a > b ? INT_MAX : 0;
+    case 3: return a < b ? -2 - (b - a) % 5 : a > b ? 2 + (a - b) % 7 : 0;
+    default: return (a > b) - (a < b);
+    }
+}
 static int cmp_node(void const *l, void const *r)
 {
-    int a = ((hnode const *)l)->key, b = ((hnode const *)r)->key;
-    return (a > b) - (a < b);
+    return cmp_shape(((hnode const *)l)->key, ((hnode const *)r)->key);
 }
 static int cmp_key(void const *ctx, void const *r)
 {
-    int a = *(int const *)ctx, b = ((hnode const *)r)->key;
-    return (a > b) - (a < b);
+    return cmp_shape(*(int const *)ctx, ((hnode const *)r)->key);
 }
 
 /* node layout: packed parent/meta word (A_SIZE_POINTER large enough) or separate members (-DA_SIZE_POINTER=1 build) */
@@ -1216,6 +1229,9 @@ static void vf_case(uint64_t c, vf_rng *r)
 {
     nlive_ids = 0;
     mn = 0;
+    cmp_style = (int)(vf_hash64(0xC3, c) >> 7 & 3);
+    vf_count_dyn(cmp_style == 0 ? "comparator-returns-sign" : cmp_style == 1 ? "comparator-returns-difference" : cmp_style == 2 ? "comparator-returns-int-extremes" : "comparator-returns-varying-magnitudes", 1);
+    vf_log("comparator result style %d (0 sign, 1 difference, 2 INT_MIN/INT_MAX, 3 varying magnitudes)", cmp_style);
     if (c < n_bfs_cases)
     {
 #ifdef VF_MODE_ITER
